@@ -284,7 +284,7 @@ def case(ctx, rnd, i):
         _probe(ctx, ast, rnd, maxlen, alphabet)
         return
     if r == 1:
-        sch = schemas.random_schema(rnd)
+        sch = schemas.wrap_schema(rnd) if rnd.random() < 0.6 else schemas.random_schema(rnd)
         if sch is None:
             ctx.count("schema_gen_failed")
             return
@@ -296,8 +296,9 @@ def case(ctx, rnd, i):
         det0 = {"schema": sch.id}
     S, rs = sch.schema, sch.ref
     names = [n for n in rs.nodes if rs.minsize()[n] != float("inf")]
-    tn = rnd.choice([n for n, t in rs.nodes.items() if not t.is_leaf and not t.is_text])
-    check_states(ctx, S, rs, tn, sid, names if len(names) <= 6 else rnd.sample(names, 6), rnd, min(maxlen, 2), det0)
+    conts = [n for n, t in rs.nodes.items() if not t.is_leaf and not t.is_text]
+    for tn in [rs.top] + rnd.sample(conts, min(2, len(conts))):
+        check_states(ctx, S, rs, tn, sid, names if len(names) <= 5 else rnd.sample(names, 5), rnd, min(maxlen, 2), det0)
     check_create_and_fill(ctx, S, rs, sid, rnd, det0, tries=3)
 
 
